@@ -541,7 +541,33 @@ class Resolve(Kernel):
         ctx.write(Loc((sv.oid, "srank")), r1)
         return VOID
 
+    def f_min_element(self, I, args, n):
+        """std::min_element(begin, end, by rank): iterator to the first element of minimum rank (end for an empty range)"""
+        ctx = I.ctx
+        b, e = ctx.rv(args[0]), ctx.rv(args[1])
+        sv = b.vec
+        L = sv.f(ctx, "len")
+        ctx.oblige("callee-pre.min_element:whole-survivor-range", z3.And(b.idx == 0, e.idx == L), kind="callee-pre")
+        r = sv.f(ctx, "srank")
+        m = ctx.fresh("min_pos")
+        ctx.assume(z3.If(L == 0, m == 0, z3.And(m >= 0, m < L, z3.ForAll([qa], z3.Implies(z3.And(qa >= 0, qa < L), z3.And(
+            r[m] <= r[qa], z3.Implies(qa < m, r[m] < r[qa])))))))
+        return VecIter(sv, m)
+
+    def f_iter_swap(self, I, args, n):
+        ctx = I.ctx
+        a, b = ctx.rv(args[0]), ctx.rv(args[1])
+        sv = a.vec
+        L = sv.f(ctx, "len")
+        ctx.oblige("callee-pre.iter_swap:dereferenceable", z3.And(a.idx >= 0, a.idx < L, b.idx >= 0, b.idx < L), kind="callee-pre")
+        for nm in ("sidx", "srank"):
+            arr = sv.f(ctx, nm)
+            ctx.write(Loc((sv.oid, nm)), z3.Store(z3.Store(arr, a.idx, arr[b.idx]), b.idx, arr[a.idx]))
+        return VOID
+
     def ctor_handler(self, qt, node):
+        if "iterator" in qt:
+            return lambda I, args, n: I.ctx.rv(args[0])
         if "Survivor" in qt and ("vector<" in qt):
             def mkv(I, args, n):
                 self.sv = SurvVec(I.ctx, self)
